@@ -33,7 +33,8 @@ Restrict(f, S) == [x \in S |-> f[x]]
 PutFile(t, p, c) == [t EXCEPT !.f = [x \in DOMAIN t.f \cup {p} |-> IF x = p THEN c ELSE t.f[x]]]
 
 Zeros(n) == [i \in 1..n |-> 0]
-Overlay(c, pos, data) ==     \* write data at 0-based position pos, zero-filling a gap
+Overlay(c, pos, data) ==     \* write data at 0-based position pos, zero-filling a gap (writing nothing changes nothing)
+  IF data = <<>> THEN c ELSE
   LET base == IF pos > Len(c) THEN c \o Zeros(pos - Len(c)) ELSE c
       e == pos + Len(data)
   IN  SubSeq(base, 1, pos) \o data \o (IF e < Len(base) THEN SubSeq(base, e + 1, Len(base)) ELSE <<>>)
